@@ -1,3 +1,663 @@
+// C13 -- constraint-handler registration is a per-thread override of a global.
+// DESIGN.md section 5: histories of registrations / violating calls / thread creations executed by
+// 1..6 real threads under a seeded interleaving, checked step by step against a reference model.
+#include "ops.h"
 #include "props.h"
-int c13_batch(const Args &) { return 2; }
-int c13_replay(const std::string &) { return 2; }
+#include <errno.h>
+#include <wchar.h>
+#include <time.h>
+#include <algorithm>
+#include <array>
+extern "C" {
+#include "safe_lib.h"
+#include "safe_str_lib.h"
+#include "safe_mem_lib.h"
+}
+
+enum { OP_SET_STR = 1001, OP_SET_MEM, OP_THRD_SET_STR, OP_THRD_SET_MEM, OP_VIOL_STR = 1010, OP_VIOL_MEM, OP_OK, OP_SPAWN = 1020, OP_JOIN };
+// handler values of the model
+enum { V_NONE = 0, V_DEF = 1, V_H1 = 2, V_H2 = 3, V_H3 = 4, V_IGN = 5, V_COUNT = 6 };
+static const char *vname[] = {"none", "default", "H1", "H2", "H3", "ignore_handler_s"};
+typedef uint8_t VSet;
+static inline VSet bit(int v) { return (VSet)(1u << v); }
+
+extern "C" {
+static void sim_h1(const char *msg, void *, errno_t e) { note_handler(1, 0, msg, e); }
+static void sim_h2(const char *msg, void *, errno_t e) { note_handler(2, 0, msg, e); }
+static void sim_h3(const char *msg, void *, errno_t e) { note_handler(3, 0, msg, e); }
+void __wrap_ignore_handler_s(const char *msg, void *ptr, int error);
+}
+// argument of a registration op -> pointer handed to the library
+static constraint_handler_t handler_ptr(int a) {
+    switch (a) {
+    case 1: return sim_h1;
+    case 2: return sim_h2;
+    case 3: return sim_h3;
+    case 4: return ignore_handler_s; // the library's real one: unobservable when it runs
+    default: return nullptr;
+    }
+}
+static int value_of_arg(int a) { return a == 0 ? V_DEF : a == 4 ? V_IGN : V_H1 + (a - 1); }
+static int value_of_ptr(constraint_handler_t p) {
+    if (!p) return V_NONE;
+    if (p == (constraint_handler_t)__wrap_ignore_handler_s) return V_DEF;
+    if (p == sim_h1) return V_H1;
+    if (p == sim_h2) return V_H2;
+    if (p == sim_h3) return V_H3;
+    if (p == ignore_handler_s) return V_IGN;
+    return -1;
+}
+static int value_of_hid(int hid) { return hid == 0 ? V_DEF : V_H1 + (hid - 1); }
+
+// ------------------------------------------------------------------ the reference model
+struct InFlight {
+    bool active = false;
+    int kind = 0;
+    VSet gadm = 0;      // values the process-wide registration held at some instant since the call began
+    int invocations = 0;
+    int regs_before = 0;
+};
+struct Model {
+    VSet G[2];
+    std::vector<std::array<VSet, 2>> T;
+    std::vector<InFlight> fl;
+    std::vector<int> regs;      // per kind: process-wide registrations so far
+    std::vector<std::array<int, 2>> tregs;
+    bool tier2 = false;
+    // first violation of the run
+    bool bad = false;
+    std::string cls, detail;
+    int bad_task = -1, bad_op = -1;
+    // measures
+    uint64_t dispatches = 0, midcall_regs = 0, nontrivial_dispatch = 0, inherited_open = 0, collapsed_to_inherit = 0, collapsed_to_none = 0;
+    uint64_t tls_reuse = 0, children_of_registered = 0, first_prev_null = 0, first_prev_default = 0;
+    std::set<uint64_t> states;
+    std::vector<uintptr_t> dead_ids;
+};
+static Model M;
+
+static void model_reset(size_t ntasks, bool tier2) {
+    M = Model();
+    M.G[0] = M.G[1] = bit(V_NONE);
+    M.T.assign(ntasks, {bit(V_NONE), bit(V_NONE)});
+    M.fl.assign(ntasks, InFlight());
+    M.regs.assign(2, 0);
+    M.tregs.assign(ntasks, {0, 0});
+    M.tier2 = tier2;
+}
+static void violation(Task &t, const char *cls, const std::string &detail) {
+    if (M.bad) return;
+    M.bad = true;
+    M.cls = cls;
+    M.detail = detail;
+    M.bad_task = t.id;
+    M.bad_op = t.cur_op;
+}
+static std::string set_str(VSet s) {
+    std::string o = "{";
+    for (int v = 0; v < V_COUNT; v++)
+        if (s & bit(v)) o += (o.size() > 1 ? "," : "") + std::string(vname[v]);
+    return o + "}";
+}
+static void note_state() {
+    Hasher h;
+    h.u64(M.G[0]);
+    h.u64(M.G[1]);
+    std::vector<uint64_t> rows;
+    for (size_t i = 0; i < M.T.size(); i++)
+        if (g_sim.tasks[i]->state != T_NOTSTARTED && g_sim.tasks[i]->state != T_DONE) rows.push_back(((uint64_t)M.T[i][0] << 8) | M.T[i][1]);
+    std::sort(rows.begin(), rows.end());
+    for (auto r : rows) h.u64(r);
+    M.states.insert(h.h);
+}
+// handlers that may legitimately run for a violation of kind k on task t
+static VSet expected_handlers(int t, int k, VSet gadm) {
+    VSet e = 0;
+    for (int v = 0; v < V_COUNT; v++) {
+        if (!(M.T[t][k] & bit(v))) continue;
+        if (v != V_NONE) { e |= bit(v); continue; }
+        for (int g = 0; g < V_COUNT; g++)
+            if (gadm & bit(g)) e |= (g == V_NONE) ? bit(V_DEF) : bit(g);
+    }
+    return e;
+}
+// narrow the thread-local set to the values consistent with having observed handler value `obs`
+static void collapse(int t, int k, VSet gadm, int obs) {
+    VSet keep = 0;
+    for (int v = 0; v < V_COUNT; v++) {
+        if (!(M.T[t][k] & bit(v))) continue;
+        if (v != V_NONE) { if (v == obs) keep |= bit(v); continue; }
+        for (int g = 0; g < V_COUNT; g++)
+            if ((gadm & bit(g)) && ((g == V_NONE ? V_DEF : g) == obs)) keep |= bit(V_NONE);
+    }
+    if (keep && keep != M.T[t][k]) {
+        if (keep == bit(V_NONE)) M.collapsed_to_none++;
+        else M.collapsed_to_inherit++;
+        M.T[t][k] = keep;
+    }
+}
+static void c13_handler_hook(int hid, int) {
+    Task *t = t_self;
+    if (!t) return;
+    InFlight &f = M.fl[t->id];
+    if (!f.active) return; // handler invoked outside a violating call (clean call): logged, not judged (C05)
+    f.invocations++;
+    int obs = value_of_hid(hid);
+    VSet exp = expected_handlers(t->id, f.kind, f.gadm);
+    if (!(exp & bit(obs))) {
+        violation(*t, "wrong-handler",
+                  std::string("a ") + (f.kind ? "mem" : "str") + " violation on task " + std::to_string(t->id) + " invoked " + vname[obs] +
+                      "; admissible: " + set_str(exp) + " (thread-local " + set_str(M.T[t->id][f.kind]) + ", process-wide " + set_str(f.gadm) + ")");
+        return;
+    }
+    collapse(t->id, f.kind, f.gadm, obs);
+}
+
+// ------------------------------------------------------------------ executing one op
+// the headers diagnose constant bad arguments at compile time; hide the constants from the compiler
+template <class T> static inline T opq(T v) { __asm__ volatile("" : "+r"(v)); return v; }
+#define NUL(T) opq((T) nullptr)
+#define NUM(n) opq((size_t)(n))
+static void do_violation(Task &t, int kind, int which, bool preemptible) {
+    uint8_t *b = t.arena.base + 256;
+    char *buf = (char *)b;
+    char *src = (char *)b + 512;
+    wchar_t *wbuf = (wchar_t *)(b + 1024);
+    strcpy(src, "the quick brown fox");
+    int diff = 0;
+    struct tm tm;
+    memset(&tm, 0, sizeof tm);
+    tm.tm_mday = 1;
+    rsize_t dm = 8;
+    char *ptr = nullptr;
+    if (preemptible) t.in_op = true;
+    if (kind == 0) {
+        switch (which % 10) {
+        case 0: _strcpy_s_chk(NUL(char *), NUM(10), src, BOS_UNKNOWN); break;
+        case 1: _strcpy_s_chk(buf, NUM(0), src, BOS_UNKNOWN); break;
+        case 2: _strcpy_s_chk(buf, NUM(RSIZE_MAX_STR + 1), src, BOS_UNKNOWN); break;
+        case 3: _strcpy_s_chk(buf, NUM(4), src, BOS_UNKNOWN); break;
+        case 4: _strcat_s_chk(buf, NUM(8), NUL(const char *), BOS_UNKNOWN); break;
+        case 5: _strncpy_s_chk(buf, NUM(8), src, NUM(100), BOS_UNKNOWN, BOS_UNKNOWN); break;
+        case 6: _sprintf_s_chk(buf, NUM(8), BOS_UNKNOWN, NUL(const char *)); break;
+        case 7: _wcscpy_s_chk(NUL(wchar_t *), NUM(8), L"x", BOS_UNKNOWN); break;
+        case 8: _strtok_s_chk(NUL(char *), &dm, NUL(const char *), &ptr, BOS_UNKNOWN); break;
+        default: _asctime_s_chk(buf, NUM(5), &tm, BOS_UNKNOWN); break;
+        }
+    } else {
+        switch (which % 7) {
+        case 0: _memcpy_s_chk(NUL(void *), NUM(10), src, NUM(5), BOS_UNKNOWN, BOS_UNKNOWN); break;
+        case 1: _memcpy_s_chk(buf, NUM(0), src, NUM(5), BOS_UNKNOWN, BOS_UNKNOWN); break;
+        case 2: _memmove_s_chk(buf, NUM(8), NUL(const void *), NUM(4), BOS_UNKNOWN, BOS_UNKNOWN); break;
+        case 3: _memset_s_chk(buf, NUM(8), 0, NUM(100), BOS_UNKNOWN); break;
+        case 4: _memcmp_s_chk(buf, NUM(8), NUL(const void *), NUM(4), &diff, BOS_UNKNOWN, BOS_UNKNOWN); break;
+        case 5: _memzero_s_chk(NUL(void *), NUM(8), BOS_UNKNOWN); break;
+        default: _memcpy_s_chk(buf, NUM(8), src, NUM(16), BOS_UNKNOWN, BOS_UNKNOWN); break;
+        }
+    }
+    t.in_op = false;
+    (void)wbuf;
+}
+
+static void c13_exec(Task &t, const Op &op, OpResult &r) {
+    int me = t.id;
+    if (t.cur_op == 0) {
+        // first step of this thread: does it sit on a dead thread's stack / TLS block?
+        for (uintptr_t d : M.dead_ids)
+            if (d == t.self_id) { M.tls_reuse++; break; }
+    }
+    switch (op.fn) {
+    case OP_SET_STR: case OP_SET_MEM: case OP_THRD_SET_STR: case OP_THRD_SET_MEM: {
+        int k = (op.fn == OP_SET_MEM || op.fn == OP_THRD_SET_MEM) ? 1 : 0;
+        bool thr = op.fn == OP_THRD_SET_STR || op.fn == OP_THRD_SET_MEM;
+        constraint_handler_t h = handler_ptr((int)op.a[0]);
+        constraint_handler_t prev;
+        if (!thr) prev = k ? set_mem_constraint_handler_s(h) : set_str_constraint_handler_s(h);
+        else prev = k ? thrd_set_mem_constraint_handler_s(h) : thrd_set_str_constraint_handler_s(h);
+        int pv = value_of_ptr(prev);
+        r.ret = pv;
+        VSet &cur = thr ? M.T[me][k] : M.G[k];
+        VSet adm = cur;
+        if (cur & bit(V_NONE)) adm |= bit(V_DEF); // "never registered" may be reported as NULL or as the default handler
+        if (pv < 0 || !(adm & bit(pv))) {
+            violation(t, "wrong-previous",
+                      std::string(thr ? "thrd_set_" : "set_") + (k ? "mem" : "str") + "_constraint_handler_s on task " + std::to_string(me) + " returned " +
+                          (pv < 0 ? "an unknown pointer" : vname[pv]) + "; registered before: " + set_str(cur));
+        } else {
+            if (pv == V_NONE) M.first_prev_null++;
+            if (pv == V_DEF && (cur & bit(V_NONE)) && !(cur & bit(V_DEF))) M.first_prev_default++;
+        }
+        int nv = value_of_arg((int)op.a[0]);
+        cur = bit(nv);
+        if (!thr) {
+            M.regs[k]++;
+            for (auto &f : M.fl)
+                if (f.active && f.kind == k) { f.gadm |= bit(nv); M.midcall_regs++; }
+        } else M.tregs[me][k]++;
+        note_state();
+        break;
+    }
+    case OP_VIOL_STR: case OP_VIOL_MEM: {
+        int k = op.fn == OP_VIOL_MEM ? 1 : 0;
+        InFlight &f = M.fl[me];
+        f.active = true;
+        f.kind = k;
+        f.gadm = M.G[k];
+        f.invocations = 0;
+        f.regs_before = M.regs[k] + M.tregs[me][k];
+        do_violation(t, k, (int)op.a[0], M.tier2);
+        f.active = false;
+        M.dispatches++;
+        if (f.regs_before >= 2) M.nontrivial_dispatch++;
+        r.ret = f.invocations;
+        if (f.invocations == 0) {
+            // nothing observable ran: only the library's real ignore_handler_s is invisible to the harness
+            VSet exp = expected_handlers(me, k, f.gadm);
+            if (!(exp & bit(V_IGN)))
+                violation(t, "no-handler", std::string("a ") + (k ? "mem" : "str") + " violation on task " + std::to_string(me) +
+                                               " invoked no observable handler; admissible: " + set_str(exp));
+            else collapse(me, k, f.gadm, V_IGN);
+        }
+        break;
+    }
+    case OP_OK: {
+        char *buf = (char *)t.arena.base + 256;
+        if (op.a[0] & 1) r.ret = _strcpy_s_chk(buf, 32, "fine", BOS_UNKNOWN);
+        else r.ret = _memcpy_s_chk(buf, 32, "0123456789", 8, BOS_UNKNOWN, BOS_UNKNOWN);
+        break;
+    }
+    case OP_SPAWN: {
+        int c = (int)op.a[0];
+        if (c > me && c < (int)g_sim.tasks.size() && g_sim.tasks[c]->state == T_NOTSTARTED) {
+            // what the child may start with: nothing, or (left open by the property) its creator's registration
+            bool open = false;
+            for (int k = 0; k < 2; k++) {
+                M.T[c][k] = bit(V_NONE) | M.T[me][k];
+                if (M.T[c][k] != bit(V_NONE)) open = true;
+                M.tregs[c][k] = 0;
+            }
+            if (open) { M.children_of_registered++; M.inherited_open++; }
+            task_spawn(t, c);
+            note_state();
+        }
+        break;
+    }
+    case OP_JOIN: {
+        int c = (int)op.a[0];
+        if (c > me && c < (int)g_sim.tasks.size() && g_sim.tasks[c]->state != T_NOTSTARTED) {
+            uintptr_t id = g_sim.tasks[c]->self_id;
+            task_join(t, c);
+            M.dead_ids.push_back(id);
+            note_state();
+        }
+        break;
+    }
+    default: break;
+    }
+}
+
+// ------------------------------------------------------------------ generation
+static void gen_history(Rng &r, Plan &plan) {
+    plan = Plan();
+    plan.locale = 0;
+    int n = 1 + r.below(6);
+    plan.tasks.resize(n);
+    int roots = (n >= 2 && r.chance(1, 3)) ? 2 : 1;
+    for (int i = 0; i < n; i++) {
+        TaskPlan &tp = plan.tasks[i];
+        tp.arena_seed = r.next();
+        tp.parent = i < roots ? -1 : (int)r.below(i);
+        int len = 1 + r.below(12);
+        for (int j = 0; j < len; j++) {
+            Op op;
+            int k = r.below(20);
+            if (k < 3) { op.fn = OP_SET_STR; op.a[0] = r.below(5); }
+            else if (k < 5) { op.fn = OP_SET_MEM; op.a[0] = r.below(5); }
+            else if (k < 8) { op.fn = OP_THRD_SET_STR; op.a[0] = r.below(5); }
+            else if (k < 10) { op.fn = OP_THRD_SET_MEM; op.a[0] = r.below(5); }
+            else if (k < 15) { op.fn = OP_VIOL_STR; op.a[0] = r.below(10); }
+            else if (k < 19) { op.fn = OP_VIOL_MEM; op.a[0] = r.below(7); }
+            else { op.fn = OP_OK; op.a[0] = r.below(2); }
+            tp.ops.push_back(op);
+        }
+    }
+    for (int i = roots; i < n; i++) {
+        TaskPlan &pp = plan.tasks[plan.tasks[i].parent];
+        Op sp;
+        sp.fn = OP_SPAWN;
+        sp.a[0] = i;
+        size_t pos = r.below((uint32_t)pp.ops.size() + 1);
+        pp.ops.insert(pp.ops.begin() + pos, sp);
+        if (r.chance(2, 3)) {
+            Op jn;
+            jn.fn = OP_JOIN;
+            jn.a[0] = i;
+            size_t jpos = pos + 1 + r.below((uint32_t)(pp.ops.size() - pos));
+            pp.ops.insert(pp.ops.begin() + jpos, jn);
+        }
+    }
+}
+
+static const char *opname(int fn) {
+    switch (fn) {
+    case OP_SET_STR: return "set_str";
+    case OP_SET_MEM: return "set_mem";
+    case OP_THRD_SET_STR: return "thrd_set_str";
+    case OP_THRD_SET_MEM: return "thrd_set_mem";
+    case OP_VIOL_STR: return "violate_str";
+    case OP_VIOL_MEM: return "violate_mem";
+    case OP_OK: return "ok_call";
+    case OP_SPAWN: return "spawn";
+    case OP_JOIN: return "join";
+    }
+    return "?";
+}
+static std::string history_json(const Plan &p, const Schedule *s) {
+    static const char *hn[] = {"NULL", "H1", "H2", "H3", "ignore_handler_s"};
+    std::string o = "{\"threads\":[";
+    for (size_t t = 0; t < p.tasks.size(); t++) {
+        o += (t ? "," : "") + std::string("{\"created_by\":") + std::to_string(p.tasks[t].parent) + ",\"program\":[";
+        for (size_t i = 0; i < p.tasks[t].ops.size(); i++) {
+            const Op &op = p.tasks[t].ops[i];
+            std::string a = op.fn >= OP_SET_STR && op.fn <= OP_THRD_SET_MEM ? hn[op.a[0] % 5] : std::to_string(op.a[0]);
+            o += (i ? "," : "") + jstr(std::string(opname(op.fn)) + "(" + a + ")");
+        }
+        o += "]}";
+    }
+    o += "]";
+    if (s) {
+        o += ",\"switches\":[";
+        for (size_t i = 0; i < s->sw.size() && i < 40; i++) {
+            char tmp[96];
+            snprintf(tmp, sizeof tmp, "%s[%d,%d,%u,%d]", i ? "," : "", s->sw[i].task, s->sw[i].op, s->sw[i].ev, s->sw[i].target);
+            o += tmp;
+        }
+        o += "]";
+    }
+    return o + "}";
+}
+
+// ------------------------------------------------------------------ running a history
+static PassCfg c13_cfg() {
+    PassCfg c;
+    c.mode = PASS_CONC;
+    c.exec = c13_exec;
+    return c;
+}
+struct RunOut {
+    bool bad = false;
+    std::string cls, detail;
+    uint64_t loghash = 0;
+    Schedule rec;
+};
+static void run_history(const Plan &plan, Strategy &st, bool tier2, RunOut &out) {
+    PassCfg cfg = c13_cfg();
+    size_t n = plan.tasks.size();
+    cfg.before_tasks = [n, tier2]() { model_reset(n, tier2); };
+    g_handler_hook = c13_handler_hook;
+    PassResult pr;
+    run_pass(plan, cfg, st, pr);
+    out.bad = M.bad;
+    out.cls = M.cls;
+    out.detail = M.detail;
+    out.loghash = pr.loghash;
+    out.rec.start = pr.start;
+    out.rec.sw = pr.recorded;
+}
+static bool fails_same(const Plan &plan, const Schedule &s, bool tier2, const std::string &cls, RunOut *o = nullptr) {
+    if (plan.tasks.empty()) return false;
+    ReplayStrategy st(s, (int)plan.tasks.size());
+    RunOut ro;
+    run_history(plan, st, tier2, ro);
+    if (o) *o = ro;
+    return ro.bad && ro.cls == cls;
+}
+// remove task t together with the spawn/join ops that name it; renumber references
+static void c13_drop_task(Plan &p, Schedule &s, int t) {
+    for (size_t i = 0; i < p.tasks.size(); i++) {
+        if ((int)i == t) continue;
+        for (int o = (int)p.tasks[i].ops.size() - 1; o >= 0; o--) {
+            Op &op = p.tasks[i].ops[o];
+            if ((op.fn == OP_SPAWN || op.fn == OP_JOIN) && op.a[0] == t) drop_op(p, s, (int)i, o);
+        }
+    }
+    drop_task(p, s, t);
+    for (auto &tp : p.tasks) {
+        if (tp.parent == t) tp.parent = -1;
+        else if (tp.parent > t) tp.parent--;
+        for (auto &op : tp.ops)
+            if ((op.fn == OP_SPAWN || op.fn == OP_JOIN) && op.a[0] > t) op.a[0]--;
+    }
+}
+static bool has_children(const Plan &p, int t) {
+    for (auto &tp : p.tasks)
+        if (tp.parent == t) return true;
+    return false;
+}
+static int c13_minimise(Plan &plan, Schedule &sched, bool tier2, const std::string &cls, int budget) {
+    int tries = 0;
+    for (int t = (int)plan.tasks.size() - 1; t >= 1; t--) {
+        if (has_children(plan, t)) continue;
+        Plan p = plan;
+        Schedule s = sched;
+        c13_drop_task(p, s, t);
+        if (++tries > budget) return tries;
+        if (fails_same(p, s, tier2, cls)) { plan = p; sched = s; }
+    }
+    bool progress = true;
+    while (progress && tries < budget) {
+        progress = false;
+        for (int t = 0; t < (int)plan.tasks.size(); t++)
+            for (int o = (int)plan.tasks[t].ops.size() - 1; o >= 0; o--) {
+                const Op &op = plan.tasks[t].ops[o];
+                if (op.fn == OP_SPAWN) continue; // a spawn goes away with its child
+                Plan p = plan;
+                Schedule s = sched;
+                drop_op(p, s, t, o);
+                if (++tries > budget) return tries;
+                if (fails_same(p, s, tier2, cls)) { plan = p; sched = s; progress = true; }
+            }
+        for (int t = (int)plan.tasks.size() - 1; t >= 1; t--) {
+            if (has_children(plan, t)) continue;
+            Plan p = plan;
+            Schedule s = sched;
+            c13_drop_task(p, s, t);
+            if (++tries > budget) return tries;
+            if (fails_same(p, s, tier2, cls)) { plan = p; sched = s; progress = true; }
+        }
+    }
+    for (int i = (int)sched.sw.size() - 1; i >= 0; i--) {
+        Schedule s = sched;
+        s.sw.erase(s.sw.begin() + i);
+        if (++tries > budget) return tries;
+        if (fails_same(plan, s, tier2, cls)) sched = s;
+    }
+    return tries;
+}
+
+// ------------------------------------------------------------------ batch
+struct C13Stats {
+    uint64_t histories = 0, ops = 0, events = 0, switches = 0, inner_switches = 0, threads = 0;
+    uint64_t tier1 = 0, tier2 = 0;
+    uint64_t opk[9] = {0};
+    uint64_t dispatches = 0, midcall_regs = 0, nontrivial = 0, tls_reuse = 0, children_of_registered = 0, collapsed_inherit = 0, collapsed_none = 0;
+    uint64_t first_prev_null = 0, first_prev_default = 0, det_checked = 0, nondeterministic = 0;
+    std::set<uint64_t> fingerprints, states;
+    std::map<std::string, uint64_t> viol_count;
+};
+static int opidx(int fn) {
+    switch (fn) {
+    case OP_SET_STR: return 0; case OP_SET_MEM: return 1; case OP_THRD_SET_STR: return 2; case OP_THRD_SET_MEM: return 3;
+    case OP_VIOL_STR: return 4; case OP_VIOL_MEM: return 5; case OP_OK: return 6; case OP_SPAWN: return 7; default: return 8;
+    }
+}
+static void flush_stats(C13Stats &st, const Args &a) {
+    std::string s = "{";
+    auto add = [&](const char *k, uint64_t v) { s += (s.size() > 1 ? "," : "") + std::string("\"") + k + "\":" + std::to_string(v); };
+    add("histories", st.histories); add("ops", st.ops); add("events", st.events); add("switches", st.switches); add("inner_switches", st.inner_switches);
+    add("threads", st.threads); add("tier1", st.tier1); add("tier2", st.tier2); add("dispatches", st.dispatches); add("midcall_regs", st.midcall_regs);
+    add("nontrivial", st.nontrivial); add("tls_reuse", st.tls_reuse); add("children_of_registered", st.children_of_registered);
+    add("collapsed_inherit", st.collapsed_inherit); add("collapsed_none", st.collapsed_none); add("first_prev_null", st.first_prev_null);
+    add("first_prev_default", st.first_prev_default); add("det_checked", st.det_checked); add("nondeterministic", st.nondeterministic);
+    static const char *names[] = {"set_str", "set_mem", "thrd_set_str", "thrd_set_mem", "violate_str", "violate_mem", "ok_call", "spawn", "join"};
+    s += ",\"op_kinds\":{";
+    for (int i = 0; i < 9; i++) s += (i ? "," : "") + jstr(names[i]) + ":" + std::to_string(st.opk[i]);
+    s += "}}";
+    printf("STAT %s\n", s.c_str());
+    if (!a.fpfile.empty()) {
+        FILE *f = fopen(a.fpfile.c_str(), "ab");
+        if (f) {
+            uint64_t tag1 = 1, tag2 = 2;
+            for (uint64_t h : st.fingerprints) { fwrite(&tag1, 8, 1, f); fwrite(&h, 8, 1, f); }
+            for (uint64_t h : st.states) { fwrite(&tag2, 8, 1, f); fwrite(&h, 8, 1, f); }
+            fclose(f);
+        }
+    }
+    std::map<std::string, uint64_t> keep = st.viol_count;
+    st = C13Stats();
+    st.viol_count = keep;
+    fflush(stdout);
+}
+
+static const Plan *g_cur_plan = nullptr;
+static uint64_t g_cur_seed = 0, g_cur_run = 0;
+static bool g_cur_tier2 = false;
+static void c13_crash_hook(int sig) {
+    if (!g_cur_plan) return;
+    Schedule s;
+    s.start = 0;
+    s.sw = g_sim.recorded;
+    std::string extra = "tier2 " + std::to_string(g_cur_tier2 ? 1 : 0) + "\nsignal " + std::to_string(sig) + "\n";
+    std::string path = write_replay("C13", "crash", "crash:history", g_cur_seed, g_cur_run, *g_cur_plan, s, extra);
+    printf("CRASH {\"run\":%llu,\"phase\":\"history\",\"signal\":%d,\"key\":\"crash:history\",\"replay\":%s}\n", (unsigned long long)g_cur_run, sig, jstr(path).c_str());
+    fflush(stdout);
+}
+
+int c13_batch(const Args &a) {
+    C13Stats st;
+    g_crash_hook = c13_crash_hook;
+    g_outdir = a.outdir;
+    int samples_left = a.worker == 0 && a.from == 0 ? 3 : 0;
+    int since_flush = 0;
+    for (uint64_t i = a.from; i < a.to; i += a.stride) {
+        uint64_t rs = mix64(a.seed, i);
+        Rng cr(mix64(rs, 1)), pr_(mix64(rs, 2)), sr(mix64(rs, 3));
+        Plan plan;
+        gen_history(pr_, plan);
+        bool tier2 = a.tier2 && cr.chance(1, 2);
+        g_cur_plan = &plan;
+        g_cur_seed = a.seed;
+        g_cur_run = i;
+        g_cur_tier2 = tier2;
+        printf("BEGIN %llu history\n", (unsigned long long)i);
+        Strategy *strat;
+        uint64_t est = 2000;
+        if (!tier2) strat = new RandomStrategy(sr.next(), 0, (int)plan.tasks.size(), est, 0, 0);
+        else if (cr.chance(2, 3)) { static const uint32_t ps[] = {4, 16, 64, 256}; strat = new RandomStrategy(sr.next(), 1, (int)plan.tasks.size(), est, ps[cr.below(4)], 0); }
+        else strat = new RandomStrategy(sr.next(), 2, (int)plan.tasks.size(), est, 0, 2 + cr.below(4));
+        RunOut ro;
+        run_history(plan, *strat, tier2, ro);
+        delete strat;
+        st.histories++;
+        (tier2 ? st.tier2 : st.tier1)++;
+        st.events += g_sim.events;
+        st.switches += ro.rec.sw.size();
+        for (auto &w : ro.rec.sw)
+            if (w.ev > 0 && w.ev != 0xffffffffu) st.inner_switches++;
+        for (auto &tp : plan.tasks)
+            for (auto &op : tp.ops) { st.ops++; st.opk[opidx(op.fn)]++; }
+        for (Task *t : g_sim.tasks)
+            if (t->state == T_DONE) st.threads++;
+        st.dispatches += M.dispatches;
+        st.midcall_regs += M.midcall_regs;
+        st.tls_reuse += M.tls_reuse;
+        st.children_of_registered += M.children_of_registered;
+        st.collapsed_inherit += M.collapsed_to_inherit;
+        st.collapsed_none += M.collapsed_to_none;
+        st.first_prev_null += M.first_prev_null;
+        st.first_prev_default += M.first_prev_default;
+        for (uint64_t h : M.states) st.states.insert(h);
+        if (M.nontrivial_dispatch) {
+            st.nontrivial++;
+            Hasher fp;
+            std::string txt = plan_to_text(plan);
+            fp.bytes(txt.data(), txt.size());
+            for (auto &w : ro.rec.sw) { fp.u64(((uint64_t)w.task << 48) | ((uint64_t)w.op << 32) | w.ev); fp.u64((uint64_t)w.target); }
+            st.fingerprints.insert(fp.h);
+        }
+        printf("RUNHASH %llu %016llx\n", (unsigned long long)i, (unsigned long long)ro.loghash);
+        bool bad = ro.bad;
+        std::string cls = ro.cls, detail = ro.detail;
+        // determinism gate (sampled, and for every violation): the recorded schedule replays to the same event log
+        if (bad || i % 64 == 0) {
+            RunOut r2;
+            bool again = fails_same(plan, ro.rec, tier2, cls, &r2);
+            st.det_checked++;
+            if (r2.loghash != ro.loghash || (bad && !again)) {
+                st.nondeterministic++;
+                printf("NONDET {\"run\":%llu}\n", (unsigned long long)i);
+                bad = false;
+            }
+        }
+        if (bad) {
+            std::string key = cls;
+            uint64_t &cnt = st.viol_count[key];
+            if (cnt++ < 3) {
+                Plan mp = plan;
+                Schedule ms = ro.rec;
+                int tries = c13_minimise(mp, ms, tier2, cls, a.min_budget);
+                RunOut r3, r4;
+                bool ok3 = fails_same(mp, ms, tier2, cls, &r3), ok4 = fails_same(mp, ms, tier2, cls, &r4);
+                if (ok3 && ok4 && r3.loghash == r4.loghash) {
+                    std::string extra = "tier2 " + std::to_string(tier2 ? 1 : 0) + "\nminimise_tries " + std::to_string(tries) + "\ndetail " + r3.detail + "\n";
+                    std::string path = write_replay("C13", cls, key, a.seed, i, mp, ms, extra);
+                    size_t nops = 0;
+                    for (auto &tp : mp.tasks) nops += tp.ops.size();
+                    printf("VIOL {\"property\":\"C13\",\"class\":%s,\"key\":%s,\"replay\":%s,\"run\":%llu,\"detail\":%s}\n", jstr(cls).c_str(), jstr(key).c_str(),
+                           jstr(path).c_str(), (unsigned long long)i,
+                           jstr(r3.detail + " [" + std::to_string(mp.tasks.size()) + " threads, " + std::to_string(nops) + " ops, " + std::to_string(ms.sw.size()) + " switches after minimisation]").c_str());
+                    printf("SAMPLE %s\n", history_json(mp, &ms).c_str());
+                    fflush(stdout);
+                } else {
+                    printf("UNSTABLE {\"run\":%llu,\"key\":%s}\n", (unsigned long long)i, jstr(key).c_str());
+                    cnt--;
+                }
+            }
+        }
+        if (samples_left > 0) {
+            samples_left--;
+            printf("SAMPLE %s\n", history_json(plan, &ro.rec).c_str());
+        }
+        if (++since_flush >= 512) { since_flush = 0; flush_stats(st, a); }
+    }
+    g_cur_plan = nullptr;
+    flush_stats(st, a);
+    return 0;
+}
+
+int c13_replay(const std::string &path) {
+    FILE *f = fopen(path.c_str(), "r");
+    if (!f) { perror(path.c_str()); return 2; }
+    std::string txt;
+    char buf[65536];
+    size_t n;
+    while ((n = fread(buf, 1, sizeof buf, f)) > 0) txt.append(buf, n);
+    fclose(f);
+    std::map<std::string, std::string> meta;
+    Plan plan;
+    Schedule sched;
+    if (!parse_replay(txt, meta, plan, sched)) { fprintf(stderr, "cannot parse %s\n", path.c_str()); return 2; }
+    bool tier2 = atoi(meta["tier2"].c_str()) != 0;
+    std::string cls = meta["class"];
+    RunOut r1, r2;
+    bool a1 = fails_same(plan, sched, tier2, cls, &r1);
+    bool a2 = fails_same(plan, sched, tier2, cls, &r2);
+    printf("history: %s\n", history_json(plan, &sched).c_str());
+    if (cls == "crash") { printf("NOT-REPRODUCED property=C13 class=crash (no crash)\n"); return 0; }
+    if (a1 && a2 && r1.loghash == r2.loghash) {
+        printf("REPRODUCED property=C13 class=%s loghash=%016llx\n  %s\n", cls.c_str(), (unsigned long long)r1.loghash, r1.detail.c_str());
+        return 1;
+    }
+    printf("NOT-REPRODUCED property=C13 class=%s (now: %s)\n", cls.c_str(), r1.bad ? r1.cls.c_str() : "ok");
+    return 0;
+}
